@@ -108,9 +108,27 @@ def unique_names(ctx):
     proto = ('param', cc.params()[1])
     for p in Interp(prog, exc_edges=False).run(cc):
         nm = p.state.heap.get((proto, 'uniqueName'))
+        counter = ('attr', selft, 'next_id')
         okn = kind(nm) == 'binop' and nm[1] == '%' and is_const(nm[2]) and \
             str(nm[2][1]).startswith(':') and contains(
-                nm[3], lambda x: x == ('attr', selft, 'next_id'))
+                nm[3], lambda x: x == counter)
+        if not okn and kind(nm) == 'binop' and nm[1] == '+':
+            # ':1.' + str(self.next_id)
+            parts = []
+
+            def flat(t):
+                if kind(t) == 'binop' and t[1] == '+':
+                    flat(t[2])
+                    flat(t[3])
+                else:
+                    parts.append(t)
+            flat(nm)
+            okn = is_const(parts[0]) and str(parts[0][1]).startswith(':') \
+                and sum(1 for x in parts if kind(x) == 'call' and
+                        x[1] in ('str', 'repr', 'format') and
+                        x[3] and x[3][0] == counter) == 1 and \
+                all(is_const(x) or (kind(x) == 'call' and x[3] and
+                                    x[3][0] == counter) for x in parts)
         ctx.ob('C14.D2', cc.qualname, 'name-from-counter', okn,
                'the unique name must be ":<n>.<counter>" built from next_id '
                'before it is incremented; is %s' % term_str(nm)[:60])
@@ -195,31 +213,41 @@ def unicast(ctx):
     msg = ('param', fi.params()[2])
     dest = ('attr', msg, 'destination')
     rows = {}
-    for p in Interp(prog, exc_edges=True).run(fi):
+    for p in Interp(prog, exc_edges=True, fork_boolop=True).run(fi):
         if any(e[0] in ('exc-edge', 'except') for e in p.trace):
             continue
         has_dest = None
         to_bus = None
+        truthy = is_none = is_empty = None
         for c, pol in p.cond:
             if c == dest:
-                has_dest = pol
-            if kind(c) == 'cmp' and c[3] == NONE and c[2] == dest:
-                has_dest = (c[1] == 'is not') == pol
+                truthy = pol
+            if kind(c) == 'cmp' and c[3] == NONE and c[2] == dest and \
+                    c[1] in ('is', 'is not', '==', '!='):
+                is_none = (c[1] in ('is', '==')) == pol
+            if kind(c) == 'cmp' and c[2] == dest and c[3] == C('') and \
+                    c[1] in ('==', '!='):
+                is_empty = (c[1] == '==') == pol
             if kind(c) == 'cmp' and c[2] == dest and \
                     c[3] == C(spec.BUS_NAME) and c[1] in ('==', '!='):
                 to_bus = (c[1] == '==') == pol
+        if truthy is False or is_none or is_empty:
+            has_dest = False
+        elif truthy or to_bus or (is_none is False and is_empty is False):
+            has_dest = True
         sent = any((c[1] or '').endswith('Bus.sendMessage')
                    for c in p.calls(deep=False))
         routed = any(kind(c[2]) in ('attr', 'bound') and
                      str(c[2][2]).endswith('routeMessage')
                      for c in p.calls(deep=False))
-        key = 'none' if has_dest is False else (
-            'bus' if to_bus else ('peer' if to_bus is False else None))
-        if key is None:
-            # destination truthy not tested on this path: classify by what
-            # is known
-            key = 'unknown'
-        rows.setdefault(key, set()).add((sent, routed))
+        # a path is taken by every kind of message its tests do not exclude
+        # (`not dest == BUS` also holds for a message without destination)
+        if has_dest is not True and to_bus is not True:
+            rows.setdefault('none', set()).add((sent, routed))
+        if has_dest is not False and to_bus is not False:
+            rows.setdefault('bus', set()).add((sent, routed))
+        if has_dest is not False and to_bus is not True:
+            rows.setdefault('peer', set()).add((sent, routed))
     want = {'peer': {(True, False)}, 'bus': {(False, False)},
             'none': {(False, True)}}
     for key, w in want.items():
